@@ -260,7 +260,7 @@ fn run_race_rounds(sc: &Scenario, q: &Q, ctl: &StreamCtl) {
     let cap = sc.cap as u64;
     let mut next_id = 10000u64;
     let mut handed = 0u64; // entries whose `next` has been entered so far
-    for _ in 0..sc.race_rounds {
+    for round in 0..sc.race_rounds {
         // 1. one entry that the writer takes and stalls on
         next_id += 1;
         let stall_id = next_id;
@@ -280,7 +280,21 @@ fn run_race_rounds(sc: &Scenario, q: &Q, ctl: &StreamCtl) {
         // 3. release the writer and race one more append against its first pop
         next_id += 1;
         let racer = next_id;
+        let left_before = vharness::stream::LEFT_HINT.load(Ordering::Acquire);
         ctl.open_gate(stall_id);
+        // wait until the writer is leaving next(stall entry), then scan the window up to its
+        // first pop with a short busy-wait (0..4 us)
+        let tw = Instant::now();
+        while vharness::stream::LEFT_HINT.load(Ordering::Acquire) == left_before
+            && tw.elapsed() < Duration::from_millis(200)
+        {
+            std::hint::spin_loop();
+        }
+        let spin = Duration::from_nanos((round * 7919 + sc.seed * 31) % 4_000);
+        let t0 = Instant::now();
+        while t0.elapsed() < spin {
+            std::hint::spin_loop();
+        }
         timed_append(q, 1, racer);
         // 4. let the writer drain: cap or cap+1 more hand-offs, then idle
         let t = Instant::now();
@@ -402,7 +416,32 @@ fn run_scenario(sc: &Scenario) {
             drop(q);
         }));
     }
+    // "forget_first": the join handle is forgotten and the harness's own queue handle dropped
+    // before the producers run, so that the LAST queue handle is dropped by a producer right
+    // after its last append
+    let (q, handle) = if sc.end == "forget_first" {
+        handle.forget();
+        trace::evi("Forget", &[]);
+        drop(q);
+        trace::evi("SinkDrop", &[("p", 0)]);
+        (None, None)
+    } else {
+        (Some(q), Some(handle))
+    };
     start.wait();
+    if sc.end == "forget_first" {
+        for t in threads {
+            let _ = t.join();
+        }
+        if !ctl.wait_closed(BUDGET) {
+            trace::evi("CloseTimeout", &[]);
+        } else {
+            trace::evi("Quiesce", &[]);
+        }
+        ctrl.free_run();
+        return;
+    }
+    let (q, handle) = (q.unwrap(), handle.unwrap());
     if sc.race_rounds > 0 {
         run_race_rounds(sc, &q, &ctl);
     }
